@@ -55,7 +55,7 @@ def signature(recs, k, mon):
 
 
 def run_topic_check(ctx, prop, *, kinds, want, given, maxseq, u1_quick, u1_thorough, sim_quick, sim_thorough,
-                    extra_props=(), nusers=3, sess_per_user=1, maxsubs=3, extra_behaviours=None, assumptions=(), rule="", delranges=None, maxdel=2, faults=None, p2p=False, root=False, special=False, gates=None):
+                    extra_props=(), nusers=3, sess_per_user=1, maxsubs=3, extra_behaviours=None, assumptions=(), rule="", delranges=None, maxdel=2, faults=None, p2p=False, root=False, special=False, gates=None, chan=False):
     thorough = ctx.tier == "thorough"
     users, sess, topics = world.population(nusers, sess_per_user, ("g1", "p12") if p2p else ("g1",))
     levels, roots = {}, []
@@ -87,13 +87,22 @@ def run_topic_check(ctx, prop, *, kinds, want, given, maxseq, u1_quick, u1_thoro
     # ---- regression behaviours: the counterexample each named deviation produces in the model (shortest found)
     behs = []
     labels = []
+    # (small fixed population; each deviation gets the request kinds and monitors that can expose it)
+    ru, rs_, rt = world.population(3, 1)
+    base_kinds = ["NewGrp", "Sub", "Leave", "SetSelf", "SetOther", "DelSub", "Unload"]
+    dev_cfg = {
+        "DEV_ReadNoteRecvNotStored": (["NewGrp", "Sub", "Pub", "Note"], ["C08", "C09"], 2, ["-"], ["-"]),
+        "DEV_ChanReaderMarksNotCached": (["NewGrp", "Chan", "Pub", "Note"], ["C09"], 2, ["-"], ["-"]),
+    }
     for dev in world.DEV_ALL:
         d = dict(world.DEV_INTENDED)
         d[dev] = "TRUE"
-        c = world.mc_consts(users, sess, topics, d, ["-", "N", "JR", "JRASO"], ["-", "N", "JR", "JRASO"],
-                            ["NewGrp", "Sub", "Leave", "SetSelf", "SetOther", "DelSub", "Unload"] + (["Pub", "Note"] if dev == "DEV_ReadNoteRecvNotStored" else []),
-                            ["C06", "C07", "C08", "C09"], maxseq=2, maxsubs=maxsubs)
-        r, m, cex = world.model_check(ctx, "Cex_" + dev, c, want_trace=True, timeout=600)
+        dk, dprops, dseq, dw, dg = dev_cfg.get(dev, (base_kinds, ["C06", "C07", "C08"], 0, ["-", "N", "JR", "JRASO"], ["-", "N", "JR", "JRASO"]))
+        c = world.mc_consts(ru, rs_, rt, d, dw, dg, dk, dprops, maxseq=dseq, maxsubs=maxsubs)
+        try:
+            r, m, cex = world.model_check(ctx, "Cex_" + dev, c, want_trace=True, timeout=240)
+        except vlib.Infra:
+            cex = None
         if cex:
             behs.append(cex)
             labels.append(dev)
@@ -108,7 +117,15 @@ def run_topic_check(ctx, prop, *, kinds, want, given, maxseq, u1_quick, u1_thoro
     # ---- simulated behaviours from the as-built model
     sim = sim_thorough if thorough else sim_quick
     cb = world.mc_consts(users, sess, topics, world.DEV_BUILT, want, given, kinds, [prop], maxseq=maxseq, maxsubs=maxsubs, delranges=delranges, maxdel=maxdel, roots=roots)
-    sims, rs = world.simulate(ctx, "Sim_" + prop, cb, sim["num"], sim["depth"], ctx.seed)
+    if chan:
+        # half of the random walks run on a channel-enabled group (created with nch...: default access RWPS, readers via chnXXX)
+        sims, rs = world.simulate(ctx, "Sim_" + prop, cb, sim["num"] - sim["num"] // 2, sim["depth"], ctx.seed)
+        cc = world.mc_consts(users, sess, topics, world.DEV_BUILT, want, given, list(kinds) + ["Chan"], [prop], maxseq=max(maxseq, 2), maxsubs=maxsubs,
+                             delranges=delranges, maxdel=maxdel, roots=roots)
+        sims2, _ = world.simulate(ctx, "SimChan_" + prop, cc, sim["num"] // 2, sim["depth"], ctx.seed + 1000)
+        sims = sims + sims2
+    else:
+        sims, rs = world.simulate(ctx, "Sim_" + prop, cb, sim["num"], sim["depth"], ctx.seed)
     behs += sims
     if extra_behaviours:
         behs += extra_behaviours(users, sess, topics)
